@@ -328,6 +328,9 @@ def h_delta_reading(eng):
         "joule/degF/delta_degF": ({"joule": 1, "delta_degree_Fahrenheit": -2}, {"joule": 1, "degree_Fahrenheit": -1, "delta_degree_Fahrenheit": -1}),
         "delta_degC**2*degC/meter": ({"delta_degree_Celsius": 3, "meter": -1}, {"delta_degree_Celsius": 2, "degree_Celsius": 1, "meter": -1}),
         "degC*celsius": ({"delta_degree_Celsius": 2}, {"degree_Celsius": 2}),
+        # accepted spellings that are not table keys themselves (plural forms)
+        "celsiuss*meter": ({"delta_degree_Celsius": 1, "meter": 1}, {"degree_Celsius": 1, "meter": 1}),
+        "degree_Fahrenheits/second": ({"delta_degree_Fahrenheit": 1, "second": -1}, {"degree_Fahrenheit": 1, "second": -1}),
         "kelvin/meter": ({"kelvin": 1, "meter": -1}, {"kelvin": 1, "meter": -1}),
     }
 
@@ -348,6 +351,47 @@ def h_delta_reading(eng):
                     eng.prove(got(reg, text, **kw) == want, f"delta-reading:default={default}:{order}:{text}:{label}:{i}")
                 q = reg.Quantity(eng.num(3), text)
                 eng.prove({k: int(v) for k, v in q._units.items()} == (with_delta if default else plain), f"delta-reading:Quantity:default={default}:{order}:{text}")
+                # every entry point that takes a unit string reads it the way parse_units does under
+                # the registry's own options: conversion targets, convert(), to_units_container
+                from pint.util import to_units_container
+
+                want_c = with_delta if default else plain
+                eng.prove({k: int(v) for k, v in to_units_container(text, reg).items()} == want_c, f"delta-reading:to_units_container:default={default}:{order}:{text}")
+                eng.prove({k: int(v) for k, v in reg.Unit(text)._units.items()} == want_c, f"delta-reading:Unit:default={default}:{order}:{text}")
+                src = reg.Quantity(eng.num(3), reg.UnitsContainer(with_delta))
+                try:
+                    r = src.to(text)
+                    outcome = {k: int(v) for k, v in r._units.items()}
+                except Exception as ex:  # noqa: BLE001
+                    outcome = type(ex).__name__
+                try:
+                    r = src.to(reg.parse_units(text))
+                    ref_outcome = {k: int(v) for k, v in r._units.items()}
+                except Exception as ex:  # noqa: BLE001
+                    ref_outcome = type(ex).__name__
+                eng.prove(outcome == ref_outcome, f"delta-reading:to(str)-as-to(parse_units(str)):default={default}:{order}:{text}")
+                try:
+                    c1 = reg.convert(eng.num(3), reg.UnitsContainer(with_delta), text)
+                except Exception as ex:  # noqa: BLE001
+                    c1 = type(ex).__name__
+                try:
+                    c2 = reg.convert(eng.num(3), reg.UnitsContainer(with_delta), reg.parse_units(text))
+                except Exception as ex:  # noqa: BLE001
+                    c2 = type(ex).__name__
+                eng.prove(c1 == c2, f"delta-reading:convert(str)-as-convert(parse_units(str)):default={default}:{order}:{text}")
+    # case variants of offset units in compound expressions, when case-insensitive lookup is asked for
+    for config in ("per-call", "registry-option"):
+        reg = pint.UnitRegistry(non_int_type=eng.ntype, case_sensitive=(config == "per-call"))
+        kw = {"case_sensitive": False} if config == "per-call" else {}
+        for text, want in (("Celsius/meter", {"delta_degree_Celsius": 1, "meter": -1}), ("DEGC*second", {"delta_degree_Celsius": 1, "second": 1}), ("CELSIUS**2", {"delta_degree_Celsius": 2}), ("Kelvin/METER", {"kelvin": 1, "meter": -1}), ("Celsius", {"degree_Celsius": 1})):
+            eng.prove(got(reg, text, **kw) == want, f"delta-reading:case-variant:{config}:{text}")
+        if config == "registry-option":
+            # conversion entry points follow the registry's case setting as parse_units does
+            eng.prove(reg.convert(eng.num(1), "FOOT", "INCH") == 12, "registry-option:convert-case-variant-strings")
+            eng.prove(reg.Quantity(eng.num(2), "foot").to("INCH").magnitude == 24, "registry-option:to-case-variant-string")
+            eng.prove(reg.Quantity(eng.num(2), "foot").m_as("Inch") == 24, "registry-option:m_as-case-variant-string")
+            eng.prove(reg.Quantity(eng.num(2), "foot").is_compatible_with("INCH"), "registry-option:is_compatible_with-case-variant-string")
+            eng.prove({k: int(v) for k, v in reg.Quantity(eng.num(2), "kelvin/hour").to("degc/HOUR")._units.items()} == {"delta_degree_Celsius": 1, "hour": -1}, "registry-option:to-case-variant-compound-offset")
 
 
 MIN_DISCHARGED = {"H08.a": 5000, "H08.b": 300, "H08.d": 3000}
